@@ -1,0 +1,142 @@
+// SPDX-FileCopyrightText: 2026 The Pion community <https://pion.ly>
+// SPDX-License-Identifier: MIT
+
+//go:build verif
+
+package ice
+
+import (
+	"context"
+	"net"
+	"net/netip"
+	"sync/atomic"
+)
+
+// Exports for the external verification harness (/verif), suites sharedconn and writeabort
+// (property C13). Built only with -tags verif.
+
+// VerifSharedUnderlying is a real udpMuxedConn of a real UDPMuxDefault whose Close calls are
+// counted, together with the reference counter shared by the handles handed out on it.
+type VerifSharedUnderlying struct {
+	*udpMuxedConn
+
+	refs   atomic.Int32
+	closes atomic.Int32
+
+	// OnClose, when set, runs inside Close before the real Close (schedule perturbation).
+	OnClose func()
+}
+
+// VerifNewSharedUnderlying creates a muxed connection of m (as GetConn would) without
+// registering it in the ufrag maps.
+func VerifNewSharedUnderlying(m *UDPMuxDefault, key string) *VerifSharedUnderlying {
+	return &VerifSharedUnderlying{udpMuxedConn: m.createMuxedConn(key)}
+}
+
+// Close counts the call and closes the real connection.
+func (u *VerifSharedUnderlying) Close() error {
+	u.closes.Add(1)
+	if u.OnClose != nil {
+		u.OnClose()
+	}
+
+	return u.udpMuxedConn.Close()
+}
+
+// NewHandle hands out one more reference-counted handle (newSharedPacketConn or
+// newSharedAddrPortConn, as UDPMuxDefault.GetConn and TCPMuxDefault.GetConnByUfrag do).
+func (u *VerifSharedUnderlying) NewHandle(addrPort bool) net.PacketConn {
+	if addrPort {
+		return newSharedAddrPortConn(u, &u.refs)
+	}
+
+	return newSharedPacketConn(u, &u.refs)
+}
+
+// Closes returns how often Close was called on the underlying connection.
+func (u *VerifSharedUnderlying) Closes() int { return int(u.closes.Load()) }
+
+// Refs returns the shared reference counter.
+func (u *VerifSharedUnderlying) Refs() int { return int(u.refs.Load()) }
+
+// Deliver queues one datagram on the underlying connection, as the mux's connWorker does.
+func (u *VerifSharedUnderlying) Deliver(data []byte, from netip.AddrPort) error {
+	return u.udpMuxedConn.writePacket(data, from, nil)
+}
+
+// VerifSharedRefs returns the reference counter and the closed flag of the connection behind a
+// handle returned by UDPMuxDefault.GetConn or TCPMuxDefault.GetConnByUfrag.
+func VerifSharedRefs(pc net.PacketConn) (refs int, closed bool, ok bool) {
+	var shared *sharedPacketConn
+	switch conn := pc.(type) {
+	case *sharedAddrPortConn:
+		shared = conn.sharedPacketConn
+	case *sharedPacketConn:
+		shared = conn
+	default:
+		return 0, false, false
+	}
+	switch under := shared.underlying.(type) {
+	case *udpMuxedConn:
+		return int(shared.refs.Load()), under.isClosed(), true
+	case *tcpPacketConn:
+		return int(shared.refs.Load()), under.isClosed(), true
+	case *VerifSharedUnderlying:
+		return int(shared.refs.Load()), under.isClosed(), true
+	default:
+		return int(shared.refs.Load()), false, false
+	}
+}
+
+// VerifSharedReadWaiting returns how many readers are parked in the udpMuxedConn behind a handle
+// (false for other kinds of underlying connections).
+func VerifSharedReadWaiting(pc net.PacketConn) (int, bool) {
+	var shared *sharedPacketConn
+	switch conn := pc.(type) {
+	case *sharedAddrPortConn:
+		shared = conn.sharedPacketConn
+	case *sharedPacketConn:
+		shared = conn
+	default:
+		return 0, false
+	}
+	switch under := shared.underlying.(type) {
+	case *udpMuxedConn:
+		return int(under.readWaiting.Load()), true
+	case *VerifSharedUnderlying:
+		return int(under.readWaiting.Load()), true
+	default:
+		return 0, false
+	}
+}
+
+// VerifMuxWriteState returns UDPMuxDefault.writeState.
+func VerifMuxWriteState(m *UDPMuxDefault) uint64 { return m.writeState.Load() }
+
+// VerifMuxWriteStateBits returns the blocked bit, the deadline bit and the count mask.
+func VerifMuxWriteStateBits() (blocked, deadline, countMask uint64) {
+	return udpMuxWriteBlockedBit, udpMuxWriteDeadlineBit, udpMuxWriteCountMask
+}
+
+// VerifMuxWriteToContext is UDPMuxDefault.writeToContext (the write used by UniversalUDPMuxDefault).
+func VerifMuxWriteToContext(m *UDPMuxDefault, ctx context.Context, buf []byte, addr net.Addr) (int, error) {
+	return m.writeToContext(ctx, buf, addr)
+}
+
+// VerifAbortWrite calls abortWrite through the writeAborter interface, as candidateBase.abortIO does.
+func VerifAbortWrite(pc net.PacketConn) (err error, ok bool) {
+	aborter, ok := pc.(writeAborter)
+	if !ok {
+		return nil, false
+	}
+
+	return aborter.abortWrite(), true
+}
+
+// VerifAbortIO runs candidateBase.abortIO on a bare started candidate that owns conn
+// (SetDeadline(now), abortWrite, Close).
+func VerifAbortIO(conn net.PacketConn) error {
+	cand := &candidateBase{conn: conn, closeCh: make(chan struct{}), closedCh: make(chan struct{})}
+
+	return cand.abortIO()
+}
